@@ -3,6 +3,7 @@ package oracle
 import (
 	"encoding/json"
 	"fmt"
+	"sort"
 	"strings"
 
 	"verif.local/lab/rt"
@@ -132,6 +133,32 @@ func C05(sp *spec.Spec, ex *rt.Exchange) *Verdict {
 		if !has && shares {
 			v.add("goa-error-header-missing-on-shared-status:"+c.Class, "errors share status %d but the goa-error header is missing", he.Status)
 		}
+		// headers the design assigns to the error: each mapped attribute travels in the header the design names
+		// (and nowhere in the body); only default-type errors have mapped headers in the envelope (the message)
+		if !oc.Custom {
+			for _, h := range he.Headers {
+				if h.Attr != "message" {
+					continue
+				}
+				name := h.Wire
+				if name == "" {
+					name = h.Attr
+				}
+				got, present := hdr(w.Header, name)
+				switch {
+				case !present:
+					v.add("declared-error-header-missing:"+placementClass(he, sv, m), "error %q: the design carries the message in header %q, the response has headers %v", oc.ErrName, name, headerNames(w.Header))
+				case got != oc.ErrMsg:
+					v.add("declared-error-header-value:"+placementClass(he, sv, m), "error %q: header %q = %q, the message returned is %q", oc.ErrName, name, got, oc.ErrMsg)
+				}
+				var raw map[string]any
+				if json.Unmarshal(w.Body, &raw) == nil {
+					if _, in := raw["message"]; in {
+						v.add("declared-error-header-attribute-also-in-body:"+placementClass(he, sv, m), "error %q: message is mapped to header %q but the body holds it as well: %s", oc.ErrName, name, trunc(string(w.Body), 160))
+					}
+				}
+			}
+		}
 		if ce.Name != oc.ErrName {
 			var tags []string
 			if oc.Custom {
@@ -189,6 +216,32 @@ func C05(sp *spec.Spec, ex *rt.Exchange) *Verdict {
 		}
 	}
 	return v
+}
+
+// placementClass says where the error response was declared: on the method, inherited from the service or the API.
+func placementClass(he *spec.HTTPError, sv *spec.Service, m *spec.Method) string {
+	if m.HTTP != nil {
+		for _, e := range m.HTTP.Errors {
+			if e == he {
+				return "method-level"
+			}
+		}
+	}
+	for _, e := range sv.HTTPErrs {
+		if e == he {
+			return "service-level"
+		}
+	}
+	return "api-level"
+}
+
+func headerNames(h map[string][]string) []string {
+	var out []string
+	for k := range h {
+		out = append(out, k)
+	}
+	sort.Strings(out)
+	return out
 }
 
 func nameClass(n string) string {
